@@ -289,14 +289,38 @@ def run_property(modname, argv):
     mod = importlib.import_module('harness.corr.' + modname)
     pid = mod.PID
     ctx = Ctx(pid, tier, seed)
+    # watchdog: a run that exceeds its budget is an infrastructure failure (exit 2), never a verdict
+    import signal
+    budget = int(os.environ.get('VERIF_TIMEOUT', '1500' if tier == 'quick' else '7200'))
+
+    def _timeout(signum, frame):
+        sys.stdout.write('%s: time budget of %d s exceeded (exit 2, no verdict)\n' % (pid, budget))
+        sys.stdout.flush()
+        os._exit(2)
+    signal.signal(signal.SIGALRM, _timeout)
+    signal.alarm(budget)
     os.makedirs(REPLAYS, exist_ok=True)
     evid_path = os.path.join(EVID, pid + '.json')
 
     if args.replay:
+        # re-execute a recorded case on the current tree: exit 1 (and the VIOLATION line) iff it still fails
         rp = json.load(open(args.replay))
-        ok = mod.replay(ctx, rp) if hasattr(mod, 'replay') else None
-        print('replay result:', ok)
-        return 0 if ok else 1
+        if hasattr(mod, 'replay'):
+            still = bool(mod.replay(ctx, rp))
+        else:
+            # generic: re-run the failing-input search with the recorded seed/tier and look for the same finding key
+            ctx = Ctx(pid, rp.get('tier', tier), int(rp.get('seed', seed)))
+            want = (rp.get('witness') or {}).get('key')
+            if hasattr(mod, 'search'):
+                mod.search(ctx)
+            still = any(w['key'] == want for w in ctx.witnesses) if want else bool(ctx.witnesses)
+            if rp.get('kind') == 'no-failing-input-found':
+                print('replay: this file names broken obligations, not an input; run ./check %s to re-check them' % pid)
+                print(json.dumps(rp.get('broken', []), indent=1)[:3000])
+        print('replay: the recorded case %s on the current tree' % ('STILL FAILS' if still else 'no longer fails'))
+        if still:
+            print('VIOLATION property=%s replay=%s' % (pid, args.replay))
+        return 1 if still else 0
 
     theorems = {}
     # 1. Tie A: regenerate Gen from the working tree
